@@ -260,7 +260,7 @@ fn oracle_c08(case: &Case, outs: &[ImplRes]) -> Result<(), String> {
     // events after the idle history
     let evs: Vec<(usize, String)> = dec_events(outs[0].text)
         .into_iter()
-        .filter(|(i, e)| *i > hlen || (*i == hlen && (e.starts_with("F:")) && false))
+        .filter(|(i, _)| *i > hlen)
         .collect();
     let mut want: Vec<String> = Vec::new();
     if !g.is_empty() {
@@ -291,7 +291,7 @@ fn oracle_c14(case: &Case, outs: &[ImplRes]) -> Result<(), String> {
             continue;
         }
         if *i == plen {
-            let is_op = e.starts_with("F:") || e.starts_with("R:");
+            let is_op = e.starts_with("F:") || e.starts_with("R:") || e == "N" || e == "B";
             if !is_op {
                 continue;
             }
